@@ -1,5 +1,6 @@
 """C01 -- successful runs yield a well-formed pcap holding exactly the emitted packets."""
 import struct
+import random
 import common, diff, gen, progs
 from diff import Case
 from gen import *
@@ -83,14 +84,16 @@ def claimed_outputs(ctx):
     import os, subprocess
     d = common.workdir("c01claim")
     mk = lambda n: "import ipv4;\n" + "".join("ipv4::udp::unicast(1.2.3.4:1, 1.2.3.5:2, \"%d-%d\");\n" % (n, i) for i in range(n))
-    layout = [("a/x.rsyn", 5), ("b/x.rsyn", 2), ("y.rsyn", 3), ("c/y.rsyn", 4), ("z.rsyn", 1)]
+    layout = [("a/x.rsyn", 5), ("b/x.rsyn", 2), ("y.rsyn", 3), ("c/y.rsyn", 4), ("z.rsyn", 1),
+              # stems that differ only after their last dot share an output name too (the extension replaces it)
+              ("t.client.rsyn", 3), ("t.server.rsyn", 1), ("u.v.w.rsyn", 2), ("u.v.x.rsyn", 4)]
     for rel, n in layout:
         os.makedirs(os.path.dirname(os.path.join(d, rel)) or d, exist_ok=True)
         open(os.path.join(d, rel), "w").write(mk(n))
-    for keep in (False, True):
-        od = os.path.join(d, "out%d" % keep)
+    for keep, verbose in ((False, False), (True, False), (False, True)):
+        od = os.path.join(d, "out%d%d" % (keep, verbose))
         os.makedirs(od)
-        args = [common.RESYNTH, "--color", "never", "--out-dir", od] + (["-k"] if keep else []) + [rel for rel, _ in layout]
+        args = [common.RESYNTH, "--color", "never", "--out-dir", od] + (["-k"] if keep else []) + (["-v"] if verbose else []) + [rel for rel, _ in layout]
         p = subprocess.run(args, cwd=d, stdout=subprocess.PIPE, stderr=subprocess.PIPE, timeout=120)
         so = p.stdout.decode("utf-8", "replace")
         ctx.count("several inputs, colliding output names")
@@ -106,9 +109,9 @@ def claimed_outputs(ctx):
                     if not ok or len(recs) != n:
                         ctx.fail("claimed-output-lost", "%s is reported ok (%d packets) but %s %s when the compiler exits"
                                  % (rel, n, os.path.basename(out), "does not exist" if recs is None else "holds %d records" % len(recs)),
-                                 {"inputs": {rel2: mk(n2) for rel2, n2 in layout}, "keep": keep, "stdout": so,
-                                  "how": "write the inputs under their relative names, run resynth --out-dir out%s %s from that directory"
-                                         % (" -k" if keep else "", " ".join(rel2 for rel2, _ in layout))})
+                                 {"inputs": {rel2: mk(n2) for rel2, n2 in layout}, "keep": keep, "verbose": verbose, "stdout": so[-3000:],
+                                  "how": "write the inputs under their relative names, run resynth --out-dir out%s%s %s from that directory"
+                                         % (" -k" if keep else "", " -v" if verbose else "", " ".join(rel2 for rel2, _ in layout))})
 
 
 def run(ctx):
@@ -121,6 +124,10 @@ def run(ctx):
         g = progs.random_program(ctx.rng, jumps=0.08, tunnels=0.25, lets=0.35, maxlen=60, big=0.03)
         c = Case()
         c.name, c.stmts, c.files, c.text, c.meta = "p%d" % i, g.stmts, {}, None, g.meta
+        if i % 3:
+            # several statements on one line / statements broken across lines: records stay in statement order
+            from props.c14 import render
+            c.text = render(g.stmts, random.Random(ctx.rng.getrandbits(32)), ("groups", "split", "one", "groups")[i % 4])[0]
         c.gen = {"kind": "random", "nrec": sum(m["npk"] for m in g.meta), "per_stmt": [m["npk"] for m in g.meta if m["npk"]]}
         cases.append(c)
     sp = special(ctx)
